@@ -54,10 +54,14 @@ Cases == {[kind |-> "key", ser |-> s, shape |-> sh, pwd |-> "none"] : s \in {"pr
          {[kind |-> "wrongpwd", ser |-> "pkcs8", shape |-> "plain", pwd |-> p] : p \in {"ascii", "utf8", "long"}} \cup
          {[kind |-> "loader", ser |-> l, shape |-> m, pwd |-> "none"] :
             l \in {"X509KeyPair", "GMX509KeyPairsSingle", "GMX509KeyPairs", "LoadX509KeyPair", "LoadGMX509KeyPair", "LoadGMX509KeyPairs"},
-            m \in {"match", "otherkey", "swapped", "negated"}}   \* negated: the key n-d, whose point has the same x
+            \* negated: the key n-d, whose point has the same x; match_chain: the certificate PEM holds the leaf followed by
+            \* its CA, the key is the leaf's; chain_cakey: the same PEM with the CA's key (it matches a certificate, not the leaf)
+            m \in {"match", "otherkey", "swapped", "negated", "match_chain", "chain_cakey"}}
 Expect(x) == CASE x.kind \in {"key", "sig", "cipher"} -> [roundtrip |-> TRUE]
-               [] x.kind = "wrongpwd" -> [error |-> TRUE]
-               [] x.kind = "loader" -> [accept |-> x.shape = "match"]
+               \* decoding is a function of (bytes, password) alone: the right password opens the key before and after any
+               \* number of attempts with other passwords, and those fail whether or not the right one was used before
+               [] x.kind = "wrongpwd" -> [error |-> TRUE, right_opens_before |-> TRUE, right_opens_after |-> TRUE, error_on_fresh_file |-> TRUE]
+               [] x.kind = "loader" -> [accept |-> x.shape \in {"match", "match_chain"}]
 Init == c \in Cases /\ done = FALSE
 Next == /\ ~done /\ done' = TRUE /\ c' = c /\ PrintT(<<"CASE", ToJson([case |-> c, expect |-> Expect(c)])>>)
 Spec == Init /\ [][Next]_<<c, done>>
